@@ -20,7 +20,8 @@ RULE = ("environments with max_recursion_depth in {1..8, 20, 50, 100, 400, 1500,
         "Oracle: nesting <= limit => the run completes and the result is a permutation of (deterministic: equal to) the reference result; "
         "nesting > limit or cyclic => JSONPathRecursionError — never RecursionError, another exception, or more than "
         "B = 200 x limit x containers nodes without an error (logical step bound; wall clock is only a watchdog, memory is capped by "
-        "RLIMIT_AS). Non-trivial: nesting within +-1 of the limit, or cyclic; distinct by (shape, limit, mode, query).")
+        "RLIMIT_AS). Non-trivial: nesting within +-1 of the limit, or cyclic; distinct by (shape, limit, mode, query)."
+        " Compiled queries are kept and re-used across cases of one environment (after errors and abandoned runs); limits are configured by subclass or on a used instance; shapes include bushy trees, aliased (DAG) data and descendant segments inside filter tests with an early match before the deep part.")
 ASSUMPTIONS = ["container nesting: the value the descendant segment is applied to has nesting 1 if it is a container without container children",
                "limits up to 3000 (the deterministic traversal keeps its own stack; the interpreter recursion limit of the worker is the default 1000)"]
 DECIDING_MONITORS = ["M-descend"]
